@@ -132,6 +132,14 @@ void token_pair_mate(token * a, token * b) {
 }
 
 
+#ifdef MMD6_VERIF
+/// Verification hook: units of work done by the pair matcher (stack probes and opener-type probes)
+unsigned long verif_pair_steps = 0;
+#define VERIF_PAIR_STEP() (verif_pair_steps++)
+#else
+#define VERIF_PAIR_STEP()
+#endif
+
 /// Search a token's childen for matching pairs
 void token_pairs_match_pairs_inside_token(token * parent, token_pair_engine * e, stack * s, unsigned short depth) {
 
@@ -166,6 +174,8 @@ void token_pairs_match_pairs_inside_token(token * parent, token_pair_engine * e,
 			// It's only worth checking if the stack is beyond a certain size
 			if (i > start_counter + kLargeStackThreshold) {
 				for (int j = 0; j < kMaxTokenTypes; ++j) {
+					VERIF_PAIR_STEP();
+
 					if (opener_count[j]) {
 						if (e->pair_type[j][walker->type]) {
 							goto close;
@@ -181,6 +191,7 @@ close:
 
 			// Find matching opener for this closer
 			while (i > start_counter) {
+				VERIF_PAIR_STEP();
 				peek = stack_peek_index(s, i - 1);
 
 				pair_type = e->pair_type[peek->type][walker->type];
